@@ -13,7 +13,7 @@ const StarveN = 40
 var starveQuick = map[string][]string{
 	"C01": {"short:30"},
 	"C02": {""},
-	"C03": {"C03/pargw/N1", "C03/pargw/N2M1", "C03/pargw/N2M2"},
+	"C03": {"C03/pargw/N1", "C03/pargw/N2M1", "C03/pargw/N2M2", "C03/pargw-race/N2", "C03/pargw-race/N3M1"},
 	"C04": {"C04/xor/k1/", "C04/xor/k2/default@none/tokens2", "C04/xor/k2/default@0/tokens2"},
 	"C05": {"C05/incl/k1/", "C05/incl/k2/"},
 	"C06": {""},
